@@ -34,3 +34,23 @@ package scenario
 //@ ensures [a-private-clone] imp(result_of(<-p.sink, 1), result1 && calls(ammo.Clone) == 1 && result0 == box(result_of(ammo.Clone, 0)))
 //@ at call ammo.Clone assume [the-sink-carries-decoded-scenarios] arg(recv) != nil
 //@ at call clone.SetID assert [a-new-id] arg(id) == result_of(p.NextID, 0)
+
+//@ func (p *Provider) SetConfig
+//@ props C08
+//@ ensures p.cfg == conf
+//@ modifies p.cfg
+
+//@ func (p *Provider) SetSink
+//@ props C08
+//@ ensures p.sink == sink
+//@ modifies p.sink
+
+//@ func (p *Provider) SetAmmos
+//@ props C08 C15
+//@ ensures p.ammos == ammos
+//@ modifies p.ammos
+
+// Clones are not pooled: releasing one touches nothing (in particular not the shared scenario it was cloned from).
+//@ func (p *Provider) Release
+//@ props C03 C11
+//@ modifies nothing
